@@ -14,8 +14,10 @@ META = dict(
     text="Model-based replay of three small TLA+ specifications of the statement. AuthJwt.tla: symbolic token "
          "classes (signing secret cur/prev/other x alg HS256/384/512/none/RS256-header-over-HMAC/altered signature "
          "x time valid/expired/not-yet/no-claims x claim sets x bearer/malformed/missing/wrong-scheme) against the "
-         "three route configurations (WithJwt, WithJwtTransition, transition with equal secrets) and four server "
-         "constructions (built-in chain, api.WithChain custom chain, Server.Use middleware, both); the parser's "
+         "three route configurations (WithJwt, WithJwtTransition, transition with equal secrets), four server "
+         "constructions (built-in chain, api.WithChain custom chain, Server.Use middleware, both) and four kinds of "
+         "api.WithUnauthorizedCallback (none, a callback that writes nothing, one that only sets a header, one that "
+         "writes 401 itself: a denial is 401 without the handler under each); the parser's "
          "per-secret hit counters and its 24 h reset are state, TLC checks that the try-order can never change the "
          "verdict and enumerates every request sequence (every single token of the full product, all sequences of "
          "2-3 (thorough 4) requests over a representative class set with a 25 h clock advance anywhere). "
@@ -24,7 +26,11 @@ META = dict(
          "quick, >= 150k thorough), each request judged by its own step and its own (unique) claims. "
          "AuthSig.tla: full product of method x fingerprint x secret x timestamp offset (exact tolerance "
          "boundaries, and int64 extremes: now+-2^55(+-1), +-2^56, +-2^62, 0, MaxInt64, MinInt64) x server construction x every set of <= 1 (thorough 2) fields altered after signing x body delivery (known "
-         "Content-Length, unknown length on the recorder, chunked over a real loopback connection). AuthRpc.tla: strict/lenient x "
+         "Content-Length, unknown length on the recorder, chunked over a real loopback connection) x key layout of the "
+         "server (one signature-protected route group holding both keys; two groups with one key each; two groups that "
+         "use the same fingerprint name for different keys) x the group the request is sent to: a route admits only "
+         "under a key configured for its own group, a header that decrypts under the other group's key only gets 403 "
+         "(servers are built from the route-group -> fingerprint -> key map of the case). AuthRpc.tla: strict/lenient x "
          "a store that changes between calls (token stored / replaced / deleted, store down / up again) x every "
          "sequence of up to 3 calls over app/token present/empty/absent/matching/differing, unary and stream; a call "
          "may be judged by the store as it is now or by a token seen at an earlier successful lookup (a cache), "
@@ -35,7 +41,7 @@ META = dict(
     note="Trusted: TLC, golang-jwt as token minter, crypto/rsa+hmac as honest client, miniredis, httptest recorder "
          "(a real loopback listener only for the signature cases delivered 'wire'). Not covered: non-strict signature mode and methods other than GET/POST/PUT/DELETE "
          "(the statement is about strict mode and these methods), encrypted bodies (type=1, CryptoHandler), the "
-         "X-Request-Uri override, unauthorized/unsigned callbacks, a bare token without 'Bearer ' prefix, iat in "
+         "X-Request-Uri override, unsigned callbacks, unauthorized callbacks that write a status other than 401, a bare token without 'Bearer ' prefix, iat in "
          "the future, expiry of the authenticator's 5-minute cache (its timing wheel runs on a real ticker), "
          "real redis connection loss (the failing store answers every command with an error). A token without any "
          "time claim may be admitted or rejected (statement silent). Signature timestamps use the real clock: "
@@ -49,17 +55,28 @@ FINISH = dict(rule="complete TLC enumeration (BFS over the history variable) of 
 
 CFGS = '{"single","transition","same"}'
 SERVERS = '{"default","chain","use","chain+use"}'
+CALLBACKS = '{"none","silent","header","writes401"}'
+LAYOUTS = '{"one","split","alias"}'
+
+
+def sigk(ctx, servers):
+    """constants of the signature spec: the layouts with two route groups get a reduced product in the quick tier"""
+    q = ctx.quick
+    return dict(MaxTamper=(1 if q else 2), Servers=servers, Layouts=LAYOUTS,
+                SideMethods=('{"GET","POST"}' if q else "Methods"),
+                SideOffsets=('{"now","+tol","-tol-1","garbage"}' if q else "Offsets \\ Extremes"))
+
+
+CONC_K = dict(Tokens="ConcTokens", Cfgs='{"transition"}', Servers='{"default"}', Callbacks='{"header"}', MaxReq=3)
 
 
 def mc(ctx):
-    K = dict(Tokens="AllTokens", Cfgs=CFGS, Servers=SERVERS, MaxReq=3)
+    K = dict(Tokens="AllTokens", Cfgs=CFGS, Servers=SERVERS, Callbacks=CALLBACKS, MaxReq=3)
     cfg = core.render_cfg(spec="Spec", constants=K, view="core",
-                          invariants=["TypeOK", "OrderCannotMatter", "AdmitShape", "NeverRegistered"])
+                          invariants=["TypeOK", "OrderCannotMatter", "AdmitShape", "NeverRegistered", "DeniedIs401"])
     r = ctx.tlc("AuthJwt", cfg, constants=K, name="AuthJwt-mc", workers=W, coverage=True)
     ctx.check_coverage(r, ["Request", "Advance"])
-    K = dict(MaxTamper=(1 if ctx.quick else 2), Servers=SERVERS)
-    cfg = core.render_cfg(spec="Spec", constants=K, invariants=["AnyTamperDenied", "HonestPasses", "OutsideToleranceDenied", "TransportIrrelevant", "ServerIrrelevant"])
-    ctx.tlc("AuthSig", cfg, constants=K, name="AuthSig-mc", workers=W)
+    # (AuthSig's properties are checked by the run that enumerates its cases: SIG_INVARIANTS in gen())
     K = dict(MaxCalls=3, MaxEnv=2, Kinds='{"unary","stream"}', CallSet="AllCalls")
     cfg = core.render_cfg(spec="Spec", constants=K, view="core",
                           invariants=["MissingMetadataRejected", "FreshMatchAdmitted", "FreshDifferRejected",
@@ -68,8 +85,16 @@ def mc(ctx):
     ctx.check_coverage(r, ["Call", "SetToken", "Toggle"])
 
 
+SIG_INVARIANTS = ["AnyTamperDenied", "HonestPasses", "OutsideToleranceDenied", "TransportIrrelevant", "ServerIrrelevant",
+                  "OneGroupAsBefore", "ForeignKeyDenied", "OwnGroupOnly"]
+
+
 def gen(ctx, module, name, K, simulate=None, depth=None):
-    cfg = core.render_cfg(spec=("Spec" if module == "AuthSigGen" else "GSpec"), constants=K, invariants=["Emit"])
+    sig = module == "AuthSigGen"
+    # the signature spec has no history: its case enumeration visits exactly the states of the model, so the
+    # properties of AuthSig.tla are checked in the same run (ServerIrrelevant/TransportIrrelevant quantify over all
+    # constructions and deliveries whatever subset is offered)
+    cfg = core.render_cfg(spec=("Spec" if sig else "GSpec"), constants=K, invariants=(SIG_INVARIANTS if sig else []) + ["Emit"])
     return ctx.tlc(module, cfg, constants=K, name=name, workers=(1 if simulate else W), timeout=900,
                    simulate=simulate, depth=depth).printed
 
@@ -82,12 +107,15 @@ def run(ctx):
     q = ctx.quick
     plans = [
         # every single token class of the full product, each configuration
-        ("jwt1", "AuthJwtGen", dict(Tokens="AllTokens", Cfgs=CFGS, Servers=SERVERS, MaxReq=1), api),
+        # (x every unauthorized-callback kind x every server construction)
+        ("jwt1", "AuthJwtGen", dict(Tokens="AllTokens", Cfgs=CFGS, Servers=SERVERS, Callbacks=CALLBACKS, MaxReq=1), api),
         # request sequences (parser ordering states, clock advance)
-        ("jwt2", "AuthJwtGen", dict(Tokens="CoreTokens", Cfgs=CFGS, Servers=SERVERS, MaxReq=2), api),
+        ("jwt2", "AuthJwtGen", dict(Tokens="CoreTokens", Cfgs=CFGS, Servers=('{"default","chain+use"}' if q else SERVERS),
+                                    Callbacks=CALLBACKS, MaxReq=2), api),
         ("jwt3", "AuthJwtGen", dict(Tokens=("FewTokens" if q else "CoreTokens"), Cfgs=CFGS,
-                                    Servers=('{"default","chain"}' if q else SERVERS), MaxReq=3), api),
-        ("sig", "AuthSigGen", dict(MaxTamper=(1 if q else 2), Servers=('{"default","chain"}' if q else SERVERS)), api),
+                                    Servers=('{"default","chain"}' if q else SERVERS),
+                                    Callbacks='{"none","silent"}', MaxReq=3), api),
+        ("sig", "AuthSigGen", sigk(ctx, '{"default","chain"}' if q else SERVERS), api),
         # single calls over the full metadata product, then sequences with the store changing in between
         ("rpc1", "AuthRpcGen", dict(MaxCalls=1, MaxEnv=0, Kinds='{"unary","stream"}', CallSet="AllCalls"), rpc),
         ("rpc2", "AuthRpcGen", dict(MaxCalls=2, MaxEnv=1, Kinds='{"unary","stream"}', CallSet="CoreCalls"), rpc),
@@ -95,9 +123,13 @@ def run(ctx):
                                     CallSet=("FewCalls" if q else "CoreCalls")), rpc),
     ]
     if not q:
-        plans.insert(3, ("jwt4", "AuthJwtGen", dict(Tokens="FewTokens", Cfgs=CFGS, Servers='{"default","chain+use"}', MaxReq=4), api))
+        plans.insert(3, ("jwt4", "AuthJwtGen", dict(Tokens="FewTokens", Cfgs=CFGS, Servers='{"default","chain+use"}',
+                                                    Callbacks='{"none","header"}', MaxReq=4), api))
+    sig_cases = []
     for name, module, K, binp in plans:
         cases = gen(ctx, module, name, K)
+        if name == "sig":
+            sig_cases = cases
         path, n = ctx.write_cases(name + ".ndjson", cases)
         ctx.samples += core.sample_of(cases, 1)
         if binp is api:
@@ -105,30 +137,59 @@ def run(ctx):
         else:
             ctx.replay(RPC_PKG, RPC_OV, RPC_RUN, path, label=name, shards=8, binp=binp)
     # seeded long request histories against one parser
-    K = dict(Tokens="CoreTokens", Cfgs=CFGS, Servers=SERVERS, MaxReq=12)
+    K = dict(Tokens="CoreTokens", Cfgs=CFGS, Servers=SERVERS, Callbacks=CALLBACKS, MaxReq=12)
     cases = gen(ctx, "AuthJwtGen", "jwtsim", K, simulate=(300 if q else 1000), depth=16)
     path, n = ctx.write_cases("jwtsim.ndjson", cases)
     ctx.replay(API_PKG, API_OV, API_RUN, path, label="jwtsim", shards=8, binp=api)
     # concurrent stage: the same behaviours, many at once, against ONE route / parser
-    K = dict(Tokens="ConcTokens", Cfgs='{"transition"}', Servers='{"default"}', MaxReq=3)
-    cases = [c for c in gen(ctx, "AuthJwtGen", "jwtconc", K) if '"advance"' not in c]
+    cases = [c for c in gen(ctx, "AuthJwtGen", "jwtconc", CONC_K) if '"advance"' not in c]
     path, n = ctx.write_cases("jwtconc.ndjson", cases)
     need = 30000 if q else 150000
     cnt, _ = ctx.replay(API_PKG, API_OV, "^TestVerifC04JwtConc$", path, label="jwtconc", shards=1, binp=api,
                         gomaxprocs=8, env=dict(VERIF_CONC_G=8, VERIF_CONC_MIN=need))
-    if cnt.get("conc.requests", 0) < need:
-        raise core.Infra("concurrent JWT stage judged only %s requests" % cnt.get("conc.requests"))
+    if not ctx.disagreements:
+        vacuity(ctx, sig_cases, cnt, need)
     ctx.assumptions += [
         "JWT time claims are judged by golang-jwt against the real clock; tokens are minted +-1 h away from it",
         "signature timestamps: the request is repeated when the wall-clock second changed while it was served"]
     ctx.notes["bounds"] = {p[0]: p[2] for p in plans}
 
 
+def vacuity(ctx, sig_cases, conc, need):
+    """What the run must have exercised (evaluated only when no disagreement was found: a difference of the code
+    under test is reported as such, never as a vacuous run)."""
+    if conc.get("conc.requests", 0) < need:
+        raise core.Infra("concurrent JWT stage judged only %s requests" % conc.get("conc.requests"))
+    tot = {}
+    for k, v in ctx.counters.items():
+        name = k.split(".", 1)[1]
+        tot[name] = tot.get(name, 0) + v
+    miss = []
+    # every callback kind saw denials, and a configured callback was really reached through the engine
+    for cb in ("none", "silent", "header", "writes401"):
+        if tot.get("jwt.denied.cb-" + cb, 0) == 0:
+            miss.append("jwt.denied.cb-" + cb)
+        if cb != "none" and tot.get("jwt.denied-callback-called.cb-" + cb, 0) == 0:
+            miss.append("jwt.denied-callback-called.cb-" + cb)
+    if tot.get("conc.callback-calls.cb-header", 0) == 0:
+        miss.append("conc.callback-calls.cb-header")
+    # every route group of every key layout admitted honest requests and refused (otherwise perfect) requests that
+    # decrypt under a key of the other group only
+    for lg in ("one.g1", "split.g1", "split.g2", "alias.g1", "alias.g2"):
+        if tot.get("sig.pass." + lg, 0) == 0:
+            miss.append("sig.pass." + lg)
+        if not lg.startswith("one.") and tot.get("sig.foreign-key-denied." + lg, 0) == 0:
+            miss.append("sig.foreign-key-denied." + lg)
+    if miss:
+        raise core.Infra("vacuous run: never exercised: %s" % miss)
+    nf = sum(1 for c in sig_cases if '"foreign":true' in c)
+    ctx.notes["sig_cases_with_a_foreign_group_key"] = nf
+
+
 def replay(ctx, rp):
     if (rp.get("key") or "").startswith("C04:jwt:concurrent"):
         # a concurrent disagreement is re-executed as the whole stage, not as one behaviour
-        K = dict(Tokens="ConcTokens", Cfgs='{"transition"}', Servers='{"default"}', MaxReq=3)
-        cases = [c for c in gen(ctx, "AuthJwtGen", "jwtconc", K) if '"advance"' not in c]
+        cases = [c for c in gen(ctx, "AuthJwtGen", "jwtconc", CONC_K) if '"advance"' not in c]
         path, _ = ctx.write_cases("jwtconc.ndjson", cases)
         ctx.replay(API_PKG, API_OV, "^TestVerifC04JwtConc$", path, label="replay", gomaxprocs=8,
                    env=dict(VERIF_CONC_G=8, VERIF_CONC_MIN=30000))
